@@ -1,25 +1,35 @@
 (* C13 handler: run the extracted model of the no-secrets APIs, KeysetInfo and
    the encrypted writer/reader on a case line
      S|<bin>|<bin2 or ->|<kek>|<ad>|<tape>|<label>
+     W|<kek>|<ad>|<tape>|<ops>|<bin1>|<bin2>|<bin3>|<label>   one writer, several writes (ops like C1,E2,A2,N3)
    and print the observation the Go harness prints. *)
-let curve_name c = match int_of_n c with 2 -> "p256" | 3 -> "p384" | 4 -> "p521" | _ -> "p256"
+let curve_name c = match int_of_n c with 2 -> "p256" | 3 -> "p384" | 4 -> "p521" | 5 -> "x25519" | _ -> failwith "curve"
 let rec take_l k l = if k = 0 then [] else match l with [] -> [] | x :: t -> x :: take_l (k - 1) t
 let rec drop_l k l = if k = 0 then l else match l with [] -> [] | _ :: t -> drop_l (k - 1) t
-let ec_point_ok (c : n) (pt : n list) : bool =
-  let len = List.length pt in
-  if len < 3 || len mod 2 = 0 then false else
-  let cs = (len - 1) / 2 in
-  let x = take_l cs (drop_l 1 pt) and y = drop_l (1 + cs) pt in
-  (match ocall "ec_oncurve" [curve_name c] [x; y] with [b] -> int_of_n b = 1 | _ -> false)
-let ec_pub_of_priv (c : n) (d : n list) : n list option =
-  if d = [] then None else ocall_opt "ecdh_pub" [curve_name c] [d]
-(* the standard library as model/Untrusted.v asks for it; C13's scope (the 16
-   key types it was built on) needs the two crypto/ecdh answers only *)
+let hash_name h = match int_of_n h with 1 -> "sha1" | 2 -> "sha384" | 3 -> "sha256" | 4 -> "sha512" | 5 -> "sha224" | _ -> failwith "hash"
+(* the standard library as model/Untrusted.v asks for it, answered by the
+   stdlib oracle (the same closures as the C14 handler: C13 now covers every
+   key type whose parser the shared model transcribes) *)
 let std : stdlib = {
-  ec_point_ok = ec_point_ok; ec_pub_of_priv = ec_pub_of_priv;
-  ed25519_pub = (fun _ -> failwith "outside C13"); mlkem_pub = (fun _ _ -> failwith "outside C13");
-  shake256 = (fun _ _ -> failwith "outside C13"); rsa_crt = (fun _ _ _ _ _ -> failwith "outside C13");
-  rsa_selfcheck = (fun _ _ _ _ _ _ _ _ -> failwith "outside C13") }
+  ec_point_ok = (fun c pt -> oracle (String.concat " " ["c14_ecdh_point"; curve_name c; hexs pt]) = "01");
+  ec_pub_of_priv = (fun c d ->
+    let r = oracle (String.concat " " ["c14_ecdh_pub"; curve_name c; hexs d]) in
+    if r = "ERR" then None else Some (unhex r));
+  ed25519_pub = (fun seed -> ocall "ed25519_pub" [] [seed]);
+  mlkem_pub = (fun k seed ->
+    let r = oracle ((if int_of_n k = 768 then "mlkem768_pub " else "mlkem1024_pub ") ^ hexs seed) in
+    if r = "ERR" then None else Some (unhex r));
+  shake256 = (fun m n -> unhex (oracle (Printf.sprintf "shake256 %s %d" (hexs m) (int_of_nat n))));
+  rsa_crt = (fun n e d p q ->
+    let r = oracle (String.concat " " ["c14_rsa_crt"; hexs n; dec_of_n e; hexs d; hexs p; hexs q]) in
+    if r = "ERR" then None else
+    (match String.split_on_char ',' r with
+     | [a; b; c] -> Some ((unhex a, unhex b), unhex c)
+     | _ -> failwith "c14_rsa_crt"));
+  rsa_selfcheck = (fun pss h salt n e d p q ->
+    oracle (String.concat " " ["c14_rsa_selfcheck"; (if pss then "pss" else "pkcs1"); hash_name h; dec_of_n salt;
+                               hexs n; dec_of_n e; hexs d; hexs p; hexs q]) = "01");
+}
 
 let okerr = function Ok _ -> "ok" | Err -> "err" | Panic -> "PANIC-MODEL"
 let info_str (i : keyset_info) : string =
@@ -32,7 +42,7 @@ let handle line =
     let bin = unhex bin and kek = unhex kek and ad = unhex ad and tape = unhex tape in
     (match decode_keyset bin with
      | None -> failwith "undecodable"
-     | Some ks when any_outside_c13 ks -> "U"
+     | Some ks when any_unmodelled ks -> "U"
      | Some ks ->
        let c = read std bin in
        let n = handle_no_secrets std (Some ks) in
@@ -63,4 +73,25 @@ let handle line =
           Printf.sprintf "%s|w:%s|info:%s|same:%s|enc:%s|jenc:%s|jinfo:%s|rd:%s|wk:%s|wa:%s"
             head w (info_str info) same (hexs enc) (hexs jenc) (info_str jinfo) rd wk wa
         | _ -> head))
+  | ["W"; kek; ad; tape; ops; b1; b2; b3; _] ->
+    let kek = unhex kek and ad = unhex ad and tape = unhex tape in
+    let hs = List.map (fun b -> read std (unhex b)) [b1; b2; b3] in
+    let head = "W|c:" ^ String.concat "," (List.map okerr hs) in
+    if List.exists (function Ok _ -> false | _ -> true) hs then head else begin
+      let h i = (match List.nth hs (i - 1) with Ok h -> h | _ -> []) in
+      let enc_with (iv : n list) (pt : n list) (ad : n list) : n list = iv @ ocall "gcm_seal" [] [kek; iv; ad; pt] in
+      (* the j-th encrypted write draws the j-th 12 bytes of the tape *)
+      let j = ref 0 in
+      let wops = List.map (fun o ->
+        let idx = Char.code o.[1] - Char.code '0' in
+        match o.[0] with
+        | 'C' -> WClear (h idx)
+        | 'N' -> WNoSecrets (h idx)
+        | c ->
+          let iv = take_l 12 (drop_l (12 * !j) tape) in
+          incr j;
+          WEncrypted (h idx, iv, (if c = 'A' then ad else []))) (String.split_on_char ',' ops) in
+      let outs = writer_history enc_with wops in
+      head ^ "|o:" ^ String.concat ";" (List.map (function Ok b -> "ok:" ^ hexs b | Err -> "err" | Panic -> "PANIC-MODEL") outs)
+    end
   | _ -> failwith "case"
